@@ -183,7 +183,13 @@ func (p *Prog) roots() []Root {
 			continue
 		}
 		seen[s.Target] = true
-		out = append(out, Root{Name: "go " + p.Name(s.Target), Funcs: p.reach(s.Target)})
+		// a goroutine is named by its target when that is a known function,
+		// else by the known function that starts it
+		rn := "go " + p.Name(s.Target)
+		if s.Target.Parent() != nil || !knownFuncs[p.Name(s.Target)] {
+			rn = "go@" + p.ownerName(s.In)
+		}
+		out = append(out, Root{Name: rn, Funcs: p.reach(s.Target)})
 	}
 	api := Root{Name: "API", Funcs: map[*ssa.Function]bool{}}
 	for _, fn := range p.FuncSeq {
@@ -308,43 +314,75 @@ func (p *Prog) lockHeld(fn *ssa.Function, mutexField string) map[ssa.Instruction
 		}
 		return 0
 	}
-	in := map[*ssa.BasicBlock]int{} // -1 unknown(top), 0 not held, 1 held
-	for _, b := range fn.Blocks {
-		in[b] = -1
-	}
-	in[fn.Blocks[0]] = 0
 	held := map[ssa.Instruction]bool{}
-	changed := true
-	for changed {
-		changed = false
-		for _, b := range fn.Blocks {
-			st := in[b]
-			if st == -1 {
-				continue
-			}
-			for _, i := range b.Instrs {
-				held[i] = st == 1
-				switch kind(i) {
-				case 1:
-					st = 1
-				case -1:
-					st = 0
+	seenInstr := map[ssa.Instruction]bool{}
+	// flow computes the lock state through g entered with state entry (0 not
+	// held, 1 held) and returns the state at its normal returns (must: held
+	// only if held at every return). Helpers are flowed through in place.
+	var flow func(g *ssa.Function, entry int, depth int) int
+	flow = func(g *ssa.Function, entry int, depth int) int {
+		in := map[*ssa.BasicBlock]int{} // -1 unknown(top), 0 not held, 1 held
+		for _, b := range g.Blocks {
+			in[b] = -1
+		}
+		in[g.Blocks[0]] = entry
+		exit := -1
+		changed := true
+		for round := 0; changed && round < 50; round++ {
+			changed = false
+			exit = -1
+			for _, b := range g.Blocks {
+				st := in[b]
+				if st == -1 {
+					continue
 				}
-			}
-			for _, s := range b.Succs {
-				ns := st
-				if in[s] != -1 && in[s] != st {
-					ns = 0 // must-analysis: held only if held on all paths
+				for _, i := range b.Instrs {
+					h := st == 1
+					if seenInstr[i] {
+						h = h && held[i]
+					}
+					held[i] = h
+					seenInstr[i] = true
+					switch kind(i) {
+					case 1:
+						st = 1
+					case -1:
+						st = 0
+					default:
+						if depth < maxHelperDepth {
+							if hf := p.helperCallee(i); hf != nil && hf != g {
+								st = flow(hf, st, depth+1)
+								if st == -1 {
+									st = 0
+								}
+							}
+						}
+					}
+					if _, isRet := i.(*ssa.Return); isRet {
+						if exit == -1 {
+							exit = st
+						} else if exit != st {
+							exit = 0
+						}
+					}
 				}
-				if in[s] == -1 || (in[s] == 1 && ns == 0) {
-					if in[s] != ns {
-						in[s] = ns
-						changed = true
+				for _, s := range b.Succs {
+					ns := st
+					if in[s] != -1 && in[s] != st {
+						ns = 0 // must-analysis: held only if held on all paths
+					}
+					if in[s] == -1 || (in[s] == 1 && ns == 0) {
+						if in[s] != ns {
+							in[s] = ns
+							changed = true
+						}
 					}
 				}
 			}
 		}
+		return exit
 	}
+	flow(fn, 0, 0)
 	return held
 }
 
